@@ -116,6 +116,36 @@ def cyc_node_base(rng, wt="int", max_edges=9, exact=True):
     return {"nodes": nodes, "edges": edges, "flow": nflow, "planted": planted, "wt": wt, "noise": noise, "mode": "node"}
 
 
+def add_zero_elements(rng, base, n=1):
+    """Adds elements whose flow is exactly 0 (legal: weights are only required to be non-negative): a chord edge no planted route
+    uses (edge mode) or a node subdividing a new parallel edge (node mode). Returns the list of added elements."""
+    added = []
+    nodes = base["nodes"]; edges = base["edges"]
+    for _ in range(n):
+        if base["mode"] == "edge":
+            cands = [(u, v) for i, u in enumerate(nodes) for v in nodes[i + 1:] if (u, v) not in edges and (v, u) not in edges and u != v]
+            # keep DAGs acyclic: only forward chords w.r.t. a topological order of the current graph
+            import networkx as nx
+            G = nx.DiGraph(edges); G.add_nodes_from(nodes)
+            if nx.is_directed_acyclic_graph(G):
+                order = {v: i for i, v in enumerate(nx.topological_sort(G))}
+                cands = [(u, v) if order[u] < order[v] else (v, u) for (u, v) in cands]
+            # never turn a sink into an inner node or give a source an in-edge (the graph must keep its sources and sinks)
+            outd = {u for u, _ in edges}; ind = {v for _, v in edges}
+            cands = [(u, v) for (u, v) in cands if u in outd and v in ind]
+            if not cands:
+                break
+            e = rng.choice(cands)
+            edges.append(e); base["flow"][e] = 0 if base["wt"] == "int" else 0.0; added.append(e)
+        else:
+            if not edges:
+                break
+            u, v = rng.choice(edges)
+            z = f"z{len(nodes)}"
+            nodes.append(z); edges += [(u, z), (z, v)]; base["flow"][z] = 0 if base["wt"] == "int" else 0.0; added.append(z)
+    return added
+
+
 def spec_of(base, drop_attr=(), extra_eattr=None, extra_nattr=None, garbage=None):
     """graph spec with attribute 'flow' on edges or nodes; elements in drop_attr get no attribute; garbage: {elem: value}."""
     garbage = garbage or {}
